@@ -144,29 +144,40 @@ Theorem eq_complete_on_simplified_sums : forall (K : cring), (forall c : K, cadd
 Proof. exact sum_eqb_complete. Qed.
 Print Assumptions eq_complete_on_simplified_sums.
 
-(* Two limits of == that the faithful model shows: *)
-
-(* (1) without simplification == is not sound: equal length and equal *sets* of terms is all it checks *)
+(* a limit of == that the faithful model shows: without simplification == is not sound - equal length and equal
+   *sets* of terms is all it checks *)
 Theorem eq_unsound_on_unsimplified_sums_refuted :
   exists s1 s2 : psum GQring,
     @sum_eqb GQring gq_eqb s1 s2 = true /\ ~ mat_eq 2 (sden 1 s1) (sden 1 s2).
 Proof. exact eq_unsimplified_counterexample. Qed.
 Print Assumptions eq_unsound_on_unsimplified_sums_refuted.
 
-(* (2) finding F33: with a plain number on one side completeness fails - the empty sum does not compare equal
-   to the number 0 although both denote the zero matrix *)
-Theorem eq_empty_sum_vs_zero_refuted :
-  @py_eq GQring gq_is_zero gq_eqb (OS []) (ON c0) = false /\
-  forall n, mat_eq (2 ^ n) (oden n (@OS GQring [])) (oden n (@ON GQring c0)).
-Proof. exact eq_empty_sum_zero_counterexample. Qed.
-Print Assumptions eq_empty_sum_vs_zero_refuted.
+(* finding F33 (fixed in /repo): a sum against a plain number now goes through the PauliTerm branch, so the
+   empty sum equals the number c exactly when c tests as zero ... *)
+Theorem eq_empty_sum_vs_number : forall (K : cring) (is_zero : K -> bool) (keqb : K -> K -> bool) (c : K),
+  py_eq is_zero keqb (OS []) (ON c) = is_zero c /\ py_eq is_zero keqb (ON c) (OS []) = is_zero c.
+Proof. exact eq_empty_sum_number. Qed.
+Print Assumptions eq_empty_sum_vs_number.
+
+(* ... and == is complete with a number on either side as well (soundness is part of eq_sound): a simplified
+   sum that denotes c * I compares equal to the number c *)
+Theorem eq_complete_sum_vs_number : forall (K : cring), (forall c : K, cadd c c = c0 -> c = c0) ->
+  forall keqb : K -> K -> bool, (forall a, keqb a a = true) ->
+  forall is_zero : K -> bool, is_zero c0 = true ->
+  forall (n : nat) (s : psum K) (c : K), sum_ok n s -> distinct_ops s -> Forall (fun t => coef t <> c0) s ->
+  mat_eq (2 ^ n) (sden n s) (nden c) ->
+  py_eq is_zero keqb (OS s) (ON c) = true /\ py_eq is_zero keqb (ON c) (OS s) = true.
+Proof. exact sum_number_eq_complete. Qed.
+Print Assumptions eq_complete_sum_vs_number.
 
 (* ---- the hypotheses are met by the instance the correspondence check runs on ----------------------- *)
 Example instance_meets_hypotheses :
   (forall c : GQring, gq_is_zero c = true -> c = c0) /\ (forall a b : GQ, gq_eqb a b = true -> a = b) /\
   (forall a : GQ, gq_eqb a a = true) /\ (forall c r : GQring, gq_inv c = Some r -> cmul r c = c1) /\
-  (forall c : GQring, cadd c c = c0 -> c = c0).
-Proof. repeat split; [exact gq_is_zero_exact|exact gq_eqb_eq|exact gq_eqb_refl|exact gq_inv_spec|exact gq_two_cancel]. Qed.
+  (forall c : GQring, cadd c c = c0 -> c = c0) /\ gq_is_zero (@c0 GQring) = true.
+Proof.
+  repeat split; [exact gq_is_zero_exact|exact gq_eqb_eq|exact gq_eqb_refl|exact gq_inv_spec|exact gq_two_cancel].
+Qed.
 
 (* (2 X0) * (i Z0) = 2 Y0 : X Z = -i Y *)
 Example product_example :
